@@ -51,6 +51,7 @@ type FuncContract struct {
 	Line     int
 	Implements string  // key of the iface contract this function must also satisfy
 	Holds    []string // lock keys (e.g. p:h.muxReg) the function is documented to be called with
+	Establishes []Expr // objects whose object invariants this function establishes (constructors / initialisers)
 	Spawns   []*Clause // spawn effects for closures started with `go`
 	AtCalls  map[string][]*Clause // callee name -> obligations at every call of that callee inside this function
 	Used     bool
@@ -456,6 +457,15 @@ func (cs *Contracts) loadContractFile(path, pkgPath string, short map[string]str
 				}
 				curF.Modifies = append(curF.Modifies, me)
 			}
+		case "establishes":
+			if curF == nil {
+				return fail("establishes outside a function contract")
+			}
+			e, err := parseSpec(rest)
+			if err != nil {
+				return fail("%v", err)
+			}
+			curF.Establishes = append(curF.Establishes, e)
 		case "holds":
 			if curF == nil {
 				return fail("holds outside a function contract")
